@@ -24,7 +24,7 @@ ASSUMPTIONS = ["maxAttempts is not judged (the generator ignores it and the prop
 REQUIRED_PROBES = ["retry_fired", "deadline_exhausted", "nonretryable_surface", "unnamed_method_called",
                    "async_retry_fired", "explicit_retry", "explicit_timeout", "attempt_deadline_fired",
                    "timeout_without_retry", "retry_without_timeout", "rest_call", "rest_retry_fired", "paged_call",
-                   "later_page_fetch_walked", "lro_call", "sstream_call"]
+                   "later_page_fetch_walked", "lro_call", "sstream_call", "sleep_overshoot_run"]
 
 
 def gen_spec(rng):
@@ -167,7 +167,10 @@ def gen_scenarios(spec, rng, n):
             op = gen_op(spec, rng, fs, s, m, f"o{j}", client)
             rng.choice(actors)["ops"].append(op)
         actors = [a for a in actors if a["ops"]]
-        out.append({"client": client, "actors": actors, "jitter_default": 1.0})
+        sc = {"client": client, "actors": actors, "jitter_default": 1.0}
+        if client != "async" and rng.random() < 0.25:
+            sc["overshoot"] = rng.choice([0.05, 0.25, 1.0])      # time.sleep(d) returns after d*(1+overshoot)
+        out.append(sc)
     return out
 
 
@@ -325,7 +328,9 @@ def judge_op(spec, scenario, op, evs, probes):
     jit = list(op.get("jitter") or [])
     jd = scenario.get("jitter_default", 1.0)
     ctx = {"T": T, "pol": pol, "retry_T": retry_T, "jit": jit, "jd": jd, "path": path, "ends": ends, "servers": servers,
-           "client": scenario["client"], "probes": probes}
+           "client": scenario["client"], "probes": probes, "overshoot": scenario.get("overshoot", 0.0)}
+    if ctx["overshoot"]:
+        _bump(probes, "sleep_overshoot_run")
     if op["kind"] == "paged":
         # every page fetch is one call of the wrapped method: the call's retry/timeout (default or
         # explicit) must govern EACH of them
@@ -432,7 +437,7 @@ def walk_call(ctx, attempts, t0, first_fetch=True):
             # api-core; the property does not -> accept either continuation (counted, not judged)
             _bump(probes, "deadline_tie_skipped")
             nxt = attempts[k] if k < len(attempts) else None
-            over = -1.0 if (nxt is not None and abs(nxt["t"] - (t_end + sleep)) <= TOL) else 1.0
+            over = -1.0 if (nxt is not None and abs(nxt["t"] - (t_end + sleep * (1.0 + ctx.get("overshoot", 0.0)))) <= TOL) else 1.0
         if over is not None and over > 0:
             _bump(probes, "deadline_exhausted")
             if (t_end - t0) > 120:
@@ -446,7 +451,8 @@ def walk_call(ctx, attempts, t0, first_fetch=True):
             _bump(probes, "async_retry_fired")
         if (t_end - t0) + sleep > 120:
             _bump(probes, "outage_over_120s")
-        expect_t = t_end + sleep
+        # the wait REQUESTED is `sleep`; a late timer makes the next attempt start later, never earlier
+        expect_t = t_end + sleep * (1.0 + ctx.get("overshoot", 0.0))
 
 
 def shape(scenario, history):
